@@ -485,6 +485,10 @@ func RPCReadSector(ctx context.Context, t TransportClient, prices rhp4.HostPrice
 	}
 	if err := req.Validate(t.PeerKey()); err != nil {
 		return RPCReadSectorResult{}, clientErr("invalid request", err)
+	} else if offset%rhp4.LeafSize != 0 {
+		// the proof covers whole segments: a host can only answer an unaligned
+		// offset with the covering segments, which are not the requested bytes
+		return RPCReadSectorResult{}, clientErrf("read offset %d is not segment aligned", offset)
 	}
 
 	s, err := openStream(ctx, t, defaultStreamTimeout)
